@@ -175,6 +175,10 @@ def exec_order(p0: int, p1: int, p2: int, p3: int, s0: int, e0: int, f0: int, s1
     return hx.end(m.systems.timestep == t + 1)
 
 
+# ordering also holds in a timestep during which a system replaces another one (same id, new object, any priority)
+from vf.harness.c05 import midstep     # noqa: E402  (the C05 harness also checks descending priority of everything that ran)
+
+
 def _pool(m):
     # pool of system objects: three distinct ids, a second object colliding with "a", a collector
     return [S("a", m), S("b", m), C("c", m), S("a", m)]
@@ -222,6 +226,17 @@ def history(i0: int, q0: int, i1: int, q1: int, i2: int, q2: int, i3: int, q3: i
                     if s.priority >= pr[k]:
                         pos += 1
                 ref.insert(pos, obj)
+        elif op == 'c':
+            # the system un-registers itself with its documented clean_up() method (only when it is registered)
+            reg = False
+            for s in ref:
+                if s is obj:
+                    reg = True
+            if not reg:
+                return hx.end(True)
+            hx.reach('removed')
+            obj.clean_up()
+            ref = [s for s in ref if s is not obj]
         elif op == 'r':
             present = False
             for s in ref:
@@ -268,6 +283,8 @@ def _hist_labels(part):
         out.append("add_rejected")
     if na >= 3:
         out.append("add_third")
+    if 'c' in ops:
+        out.append("removed")
     if 'r' in ops:
         out.append("remove_rejected")
         if 'a' in ops[:ops.rindex('r')]:
@@ -295,7 +312,8 @@ def _histories(k):
 # longer histories aimed at state that can go stale: a timestep, then changes that keep the number of systems, then a
 # timestep; removal and re-registration of the same object among equal priorities
 _TARGETED = [{"ops": "atra", "idx": [0, 0, 0, 1]}, {"ops": "atra", "idx": [0, 0, 0, 0]}, {"ops": "aatra", "idx": [0, 1, 0, 1, 1]},
-             {"ops": "aarat", "idx": [0, 1, 1, 1, 0]}, {"ops": "aatra", "idx": [1, 2, 0, 2, 0]}, {"ops": "atrat", "idx": [2, 0, 2, 3, 0]}]
+             {"ops": "aarat", "idx": [0, 1, 1, 1, 0]}, {"ops": "aatra", "idx": [1, 2, 0, 2, 0]}, {"ops": "atrat", "idx": [2, 0, 2, 3, 0]},
+             {"ops": "aaca", "idx": [0, 1, 0, 0]}, {"ops": "aacat", "idx": [0, 1, 0, 0, 0]}, {"ops": "aaaca", "idx": [0, 1, 2, 1, 1]}]
 ENC_ADD = (SystemManager.add_system,)
 BOUNDS = {
     "quick": {"queue_length_prestate": "<= 5", "history_length": "<= 3", "priorities": "unbounded int",
@@ -326,6 +344,10 @@ def obligations(tier):
         X("exec_order", exec_order, parts=[{"n": n} for n in range(0, (3 if tier == "quick" else 4) + 1)],
           labels=("two_ran", "one_skipped"), timeout=300, encoded=(SystemManager.execute_systems,),
           bounds={"n": "0..%d" % (3 if tier == "quick" else 4), "start,end,frequency,timestep": "all ints, f>=1"}),
+        X("midstep_order", midstep, parts=[{"n": 2, "kinds": ["replace"]}, {"n": 3, "kinds": ["replace"]}, {"n": 2, "kinds": ["add"]}],
+          labels=("removed", "added"), labels_for=lambda p: ("added",), timeout=600,
+          encoded=(SystemManager.execute_systems, SystemManager.add_system, SystemManager.remove_system),
+          bounds={"systems": "2..3, one mid-timestep replacement/registration with any priority"}),
         X("history", history, parts=_histories(3 if tier == "quick" else 4) + _TARGETED,
           labels=("add_rejected", "add_third", "removed", "remove_rejected", "added"), labels_for=_hist_labels,
           timeout=300, group=2,
